@@ -75,12 +75,12 @@ ImplSizedAccepts(s, x, flag, D) ==
   LET min == PMin(s)  max == PMax(s)
       emin == PEx(s, "exclusiveMinimum")  emax == PEx(s, "exclusiveMaximum")
   IN
-  IF ~flag THEN InRange("int64", x) /\ ~NumCheckRejects(min, max, emin, emax, Nil, x, D)
+  IF ~flag THEN InRange("int64", x) /\ ~NumCheckRejects(min, max, emin, emax, Nil, x, TRUE, D)
   ELSE LET r == MinIntType(min, max, emin, emax, D)
            crossed == "RemoveCrossedExclusive" \in D
            min2  == IF r.rmin THEN Nil ELSE min
            max2  == IF r.rmax THEN Nil ELSE max
            emin2 == IF (IF crossed THEN r.rmax ELSE r.rmin) THEN [on |-> FALSE] ELSE emin
            emax2 == IF (IF crossed THEN r.rmin ELSE r.rmax) THEN [on |-> FALSE] ELSE emax
-       IN InRange(r.ty, x) /\ ~NumCheckRejects(min2, max2, emin2, emax2, Nil, x, D)
+       IN InRange(r.ty, x) /\ ~NumCheckRejects(min2, max2, emin2, emax2, Nil, x, TRUE, D)
 =============================================================================
